@@ -295,6 +295,9 @@ def explore(fn, max_paths=4000, check_feasible=True, on_path=None):
 
 # --------------------------------------------------------------------------- scalars
 
+RATIONALIZE = [False]
+
+
 def _frac(x):
     if isinstance(x, bool):
         raise TypeError("bool in arithmetic")
@@ -303,7 +306,14 @@ def _frac(x):
     if isinstance(x, float):
         if x != x or x in (float("inf"), float("-inf")):
             raise Undecided("non-finite float constant in symbolic arithmetic")
-        return Fraction(x)          # the exact value of the double (computed floats and literals alike)
+        fr = Fraction(x)            # the exact value of the double (computed floats and literals alike)
+        if RATIONALIZE[0]:
+            # opt-in per unit (stated as an assumption there): a double within 2 ulp of a rational with denominator <= 4096
+            # stands for that rational (1/3, 1/6 ... computed as 1./n before meeting a symbol)
+            r = fr.limit_denominator(4096)
+            if abs(r - fr) <= Fraction(abs(x)) * Fraction(1, 2 ** 51):
+                return r
+        return fr
     if isinstance(x, Fraction):
         return x
     raise TypeError(type(x))
@@ -465,6 +475,17 @@ def _real(t):
     return z3.ToReal(t) if z3.is_int(t) else t
 
 
+def _num_val(t):
+    """Fraction value of a numeral term (also ToReal(numeral)), else None"""
+    if z3.is_int_value(t):
+        return t.as_long()
+    if z3.is_rational_value(t):
+        return Fraction(t.numerator_as_long(), t.denominator_as_long())
+    if z3.is_app(t) and t.decl().kind() == z3.Z3_OP_TO_REAL and z3.is_int_value(t.arg(0)):
+        return t.arg(0).as_long()
+    return None
+
+
 class SNum:
     """symbolic int or real"""
     __slots__ = ("t", "kind")
@@ -491,6 +512,21 @@ class SNum:
         else:
             ta, tb = _real(a.t), _real(b.t)
             kind = "real"
+        # exact shortcuts for the numerals 0 and 1 (keeps terms produced by generic array code small)
+        ca_, cb_ = _num_val(ta), _num_val(tb)
+        if op == "add" and ca_ == 0:
+            return SNum(tb, kind)
+        if op in ("add", "sub") and cb_ == 0:
+            return SNum(ta, kind)
+        if op == "mul":
+            if ca_ == 0 or cb_ == 0:
+                return SNum(z3.IntVal(0) if kind == "int" else z3.RealVal(0), kind)
+            if ca_ == 1:
+                return SNum(tb, kind)
+            if cb_ == 1:
+                return SNum(ta, kind)
+        if op == "div" and cb_ == 1:
+            return SNum(ta, kind)
         if op == "add":
             t = ta + tb
         elif op == "sub":
@@ -708,13 +744,19 @@ class SCplx:
         return SCplx(lift(x), 0)
 
     def __add__(self, o):
+        if getattr(o, "__array_priority__", 0) >= 3000:      # phases / phase sums take over
+            return NotImplemented
         o = SCplx.of(o); return SCplx(self.re + o.re, self.im + o.im)
     __radd__ = __add__
 
     def __sub__(self, o):
+        if getattr(o, "__array_priority__", 0) >= 3000:
+            return NotImplemented
         o = SCplx.of(o); return SCplx(self.re - o.re, self.im - o.im)
 
     def __rsub__(self, o):
+        if getattr(o, "__array_priority__", 0) >= 3000:
+            return NotImplemented
         o = SCplx.of(o); return SCplx(o.re - self.re, o.im - self.im)
 
     def __mul__(self, o):
